@@ -161,7 +161,7 @@ fn exerciser_stdpath<const N: usize, const FULL: bool>() {
     }
 }
 
-// verif: prop=C02 tier=quick cap=2400 bound="all byte strings <= 44 B as standard path (<= 2 hop fields): all accessors/mutators of the repository's exerciser list and expiration() (setter/reversal sequences: thorough tier and C11/C12 harnesses)" fns="StandardPathView::*,InfoFieldView::*,HopFieldView::*,StdPathLayout::try_from_slice" stubs="none"
+// verif: prop=C02 tier=thorough cap=3400 mem=30 bound="all byte strings <= 44 B as standard path (<= 2 hop fields): all accessors/mutators of the repository's exerciser list and expiration() (setter/reversal sequences: thorough tier and C11/C12 harnesses)" fns="StandardPathView::*,InfoFieldView::*,HopFieldView::*,StdPathLayout::try_from_slice" stubs="none"
 #[kani::proof]
 #[kani::unwind(5)]
 fn c02_exerciser_stdpath_n44() {
@@ -180,6 +180,36 @@ fn c02_exerciser_stdpath_n64() {
 #[kani::unwind(9)]
 fn c02_exerciser_stdpath_n100() {
     exerciser_stdpath::<100, true>()
+}
+
+/// standalone path views (RPC paths, `ScionPath`): constructor contract and indexed access
+fn stdpath_indexed<const N: usize>() {
+    let len: usize = kani::any();
+    kani::assume(len <= N);
+    let k: usize = kani::any();
+    let mut buf: [u8; N] = kani::any();
+    let Some(v) = ctor_contract!(StandardPathView, buf, len) else { return };
+    let all = unsafe { std::slice::from_raw_parts(v.as_slice().as_ptr(), v.as_slice().len()) };
+    let want = 4 + 8 * v.info_field_count() as usize + 12 * v.hop_field_count() as usize;
+    assert!(all.len() == want, "path view size differs from meta + info fields + hop fields");
+    kani::cover!(v.hop_field_count() as usize * 12 + 28 > N - 12, "path filling the buffer accepted");
+    if let Some(h) = v.hop_field_mut(k) {
+        assert!(within(all, h.as_slice()), "hop field outside the path view");
+        h.set_mac(crate::dataplane_path::standard::types::HopFieldMac(kani::any()));
+        h.set_cons_egress(kani::any());
+    }
+    if let Some(i) = v.info_field_mut(k) {
+        assert!(within(all, i.as_slice()), "info field outside the path view");
+        i.set_timestamp(kani::any());
+    }
+    assert!(within(all, OneHopPathView::try_from_slice(all).map(|(o, _)| o.as_slice()).unwrap_or(&[])));
+}
+
+// verif: prop=C02 tier=quick cap=1200 bound="all byte strings <= 160 B as standalone standard path (every segment-length triple, every truncation point), hop/info field at any index; one-hop view of the same bytes" fns="StandardPathView::{try_from_mut_slice,hop_field_mut,info_field_mut},StdPathLayout::try_from_slice,OneHopPathView::try_from_slice" stubs="none"
+#[kani::proof]
+#[kani::unwind(4)]
+fn c02_stdpath_indexed_n160() {
+    stdpath_indexed::<160>()
 }
 
 // ---------------------------------------------------------------- loop-free, large N
